@@ -575,6 +575,12 @@ func (e *Engine) validityDecision(f *ssa.Function, br *ssa.If) string {
 	if d == nil {
 		return ""
 	}
+	if f != d && f.Parent() == nil && e.purePredicate(f, d, 0) {
+		// the whole function is the computation of a verdict: it is reached only from the decoder, yields nothing
+		// but a bool / an error and leaves no other trace, so every decision taken in it is part of deciding validity
+		// (in whatever shape the comparison is written: early returns, a scan that stops at the first difference, …)
+		return fmt.Sprintf("%s is called only inside %s, writes nothing and returns only its verdict (bool/error)", load.ShortName(f), load.ShortName(d))
+	}
 	var exitSide func(b *ssa.BasicBlock, depth int) (*ssa.Return, bool)
 	exitSide = func(b *ssa.BasicBlock, depth int) (*ssa.Return, bool) {
 		for _, in := range b.Instrs {
@@ -626,6 +632,62 @@ func (e *Engine) validityDecision(f *ssa.Function, br *ssa.If) string {
 		return fmt.Sprintf("%s is called only inside %s and one side of the branch returns at once (%s)", load.ShortName(f), load.ShortName(d), e.P.Rel(r.Pos()))
 	}
 	return ""
+}
+
+// purePredicate: f (private to decoder d) has only bool / error results, stores only to its own locals and calls
+// nothing but len, error constructors and other such predicates private to d.
+func (e *Engine) purePredicate(f, d *ssa.Function, depth int) bool {
+	if depth > 4 || len(f.Blocks) == 0 || e.decoderOf(f) != d || f == d {
+		return false
+	}
+	res := f.Signature.Results()
+	if res.Len() == 0 {
+		return false
+	}
+	errT := types.Universe.Lookup("error").Type()
+	for i := 0; i < res.Len(); i++ {
+		t := res.At(i).Type()
+		if b, ok := t.Underlying().(*types.Basic); ok && b.Kind() == types.Bool {
+			continue
+		}
+		if types.Identical(t, errT) {
+			continue
+		}
+		return false
+	}
+	for _, b := range f.Blocks {
+		for _, in := range b.Instrs {
+			switch x := in.(type) {
+			case *ssa.Phi, *ssa.DebugRef, *ssa.MakeInterface, *ssa.UnOp, *ssa.BinOp, *ssa.FieldAddr, *ssa.IndexAddr, *ssa.Index, *ssa.Field,
+				*ssa.Convert, *ssa.ChangeType, *ssa.Extract, *ssa.Slice, *ssa.If, *ssa.Jump, *ssa.Return, *ssa.SliceToArrayPointer:
+			case *ssa.Alloc:
+				if x.Heap {
+					return false
+				}
+			case *ssa.Store:
+				if a, local := x.Addr.(*ssa.Alloc); !local || a.Heap {
+					return false
+				}
+			case *ssa.Call:
+				if bi, ok := x.Call.Value.(*ssa.Builtin); ok && (bi.Name() == "len" || bi.Name() == "cap") {
+					continue
+				}
+				h := x.Common().StaticCallee()
+				if h == nil {
+					return false
+				}
+				if load.IsErrCtor(h) {
+					continue
+				}
+				if !e.purePredicate(h, d, depth+1) {
+					return false
+				}
+			default:
+				return false
+			}
+		}
+	}
+	return true
 }
 
 // Sinks returns one obligation per sink construct in the constant-time set.
